@@ -34,7 +34,18 @@ impl<'a> Gen<'a> {
         } else {
             req
         };
+        // "warm" variants: the same request on a network that was evaluated once BEFORE its connections, accumulations,
+        // objective and optimizer were configured, and once more after (nothing the network remembers from an earlier
+        // evaluation may enter a later one) — every fourth network request
+        let warm = if req.starts_with("net ") && self.out.len() % 4 == 1 {
+            [" predict ", " predict_batch ", " validate ", " backward ", " learn "].iter().find_map(|c| req.find(c).map(|pos| format!("{}warm {}", &req[..pos + 1], &req[pos + 1..])))
+        } else {
+            None
+        };
         self.out.push((req, tol, label.to_string(), nontrivial));
+        if let Some(w) = warm {
+            self.out.push((w, tol, format!("{}/warm", label), nontrivial));
+        }
     }
     pub fn rng(&mut self) -> &mut Rng {
         &mut self.ctx.rng
